@@ -30,6 +30,14 @@ theorem fromI64_eq (p n : Int) : fromI64 p n = n % p := rfl
 theorem fromI64_of_canonical {p a : Int} (h0 : 0 ≤ a) (h1 : a < p) : fromI64 p a = a :=
   Int.emod_eq_of_lt h0 h1
 
+theorem chk_bind_eq {x v : Int} {p : Int}
+    (h : (chk x).bind (fun s => Outcome.ok (fromI64 p s)) = .ok v) : v = x % p := by
+  unfold chk at h
+  split at h
+  · simp only [bind_ok] at h
+    cases h; rfl
+  · cases h
+
 /-- the state invariant of the `while r1 != 0` loop of `inverse` -/
 structure InvInv (p a t t1 r r1 ε : Int) : Prop where
   eps : ε = 1 ∨ ε = -1
@@ -78,5 +86,90 @@ theorem InvInv.step {p a t t1 r r1 ε : Int} (h : InvInv p a t t1 r r1 ε) (hr1 
   · obtain ⟨k0, hk0⟩ := h.c0
     obtain ⟨k1, hk1⟩ := h.c1
     exact ⟨k0 - r / r1 * k1, by nlinarith⟩
+
+/-- the loop of `inverse` neither overflows nor runs out of fuel, ends with `r = 1`
+    and a `t` with `t·a ≡ 1 (mod p)` -/
+theorem invLoop_spec {p a : Int} (hp2 : 2 ≤ p) (hpm : p ≤ maxP) :
+    ∀ (fuel : Nat) (t t1 r r1 ε : Int), InvInv p a t t1 r r1 ε → r1 < fuel →
+      ∃ t', invLoop fuel t t1 r r1 = .ok (t', 1) ∧ ∃ k, t' * a - 1 = k * p := by
+  intro fuel
+  induction fuel with
+  | zero => intro t t1 r r1 ε h hf; have := h.r1_nonneg; omega
+  | succ f ih =>
+    intro t t1 r r1 ε h hf
+    unfold invLoop
+    by_cases hr1 : r1 = 0
+    · subst hr1
+      have hg := h.gcd
+      rw [Int.gcd_zero_right] at hg
+      have hr : r = 1 := by have := h.r1_lt; omega
+      subst hr
+      simp only [if_true]
+      exact ⟨t, rfl, h.c0⟩
+    · have hr1' : 1 ≤ r1 := by have := h.r1_nonneg; omega
+      have hr0 : 0 ≤ r := by have := h.r1_lt; omega
+      simp only [hr1, if_false]
+      rw [Int.tdiv_eq_ediv_of_nonneg hr0]
+      have hn := h.step hr1'
+      have hq0 : 0 ≤ r / r1 := Int.ediv_nonneg hr0 h.r1_nonneg
+      have hqr : r / r1 ≤ r := Int.ediv_le_self _ hr0
+      have hmod : r - r / r1 * r1 = r % r1 := by
+        have := Int.emod_add_mul_ediv r r1; linarith [mul_comm r1 (r / r1)]
+      have hm0 : 0 ≤ r % r1 := Int.emod_nonneg _ (by omega)
+      have hm1 : r % r1 < r1 := Int.emod_lt_of_pos _ (by omega)
+      have hrp := h.r_le
+      have hrl := h.r1_lt
+      have ht := h.abs_t_le hr1'
+      have ht1 := hn.abs_t1_le
+      have hpm' : p ≤ 3037000499 := hpm
+      rw [chk_ok_of_abs (by simp only [maxP]; omega) (by simp only [maxP]; omega)]
+      simp only [bind_ok]
+      rw [chk_ok_of_abs (by simp only [maxP]; omega) (by simp only [maxP]; omega)]
+      simp only [bind_ok]
+      rw [chk_ok_of_abs (by simp only [maxP]; omega) (by simp only [maxP]; omega)]
+      simp only [bind_ok]
+      rw [chk_ok_of_abs (by simp only [maxP]; omega) (by simp only [maxP]; omega)]
+      simp only [bind_ok]
+      rw [chk_ok_of_abs (by simp only [maxP]; omega) (by simp only [maxP]; omega)]
+      simp only [bind_ok]
+      exact ih _ _ _ _ _ hn (by omega)
+
+theorem gcd_prime_of_canonical {p : ℕ} (hp : p.Prime) {a : Int} (h0 : 0 < a) (h1 : a < p) :
+    Int.gcd (p : ℤ) a = 1 := by
+  rw [Int.gcd_eq_natAbs, Int.natAbs_natCast]
+  have : ¬ p ∣ a.natAbs := by
+    intro hd
+    have := Nat.le_of_dvd (by omega) hd
+    omega
+  exact (Nat.Prime.coprime_iff_not_dvd hp).2 this
+
+theorem initial_inv {p : ℕ} (hp : p.Prime) {a : Int} (h0 : 0 < a) (h1 : a < p) :
+    InvInv (p : ℤ) a 0 1 p a 1 :=
+  ⟨Or.inl rfl, by norm_num, by norm_num, by ring, le_of_lt h0, h1, le_refl _,
+    gcd_prime_of_canonical hp h0 h1, ⟨-1, by ring⟩, ⟨0, by ring⟩⟩
+
+theorem mul_in_range {p a b : Int} (hpm : p ≤ maxP) (ha0 : 0 ≤ a) (ha : a < p) (hb0 : 0 ≤ b)
+    (hb : b < p) : i64Min ≤ a * b ∧ a * b ≤ i64Max := by
+  have h1 : a * b ≤ 3037000498 * 3037000498 := by
+    have ha' : a ≤ 3037000498 := by simp only [maxP] at hpm; omega
+    have hb' : b ≤ 3037000498 := by simp only [maxP] at hpm; omega
+    exact mul_le_mul ha' hb' hb0 (by norm_num)
+  have h0 : 0 ≤ a * b := mul_nonneg ha0 hb0
+  simp only [i64Min, i64Max]
+  constructor <;> omega
+
+/-- `inverse` on a canonical non-zero value, prime modulus accepted by `valid()` -/
+theorem inverse_spec {p : ℕ} (hp : p.Prime) (hpm : (p : ℤ) ≤ maxP) {a : Int} (h0 : 0 < a)
+    (h1 : a < p) :
+    ∃ v, inverse (p : ℤ) a = .ok v ∧ 0 ≤ v ∧ v < p ∧ (v * a) % (p : ℤ) = 1 := by
+  have hp2 : (2 : ℤ) ≤ p := by exact_mod_cast hp.two_le
+  obtain ⟨t', ht', k, hk⟩ := invLoop_spec hp2 hpm (a.toNat + 2) 0 1 p a 1 (initial_inv hp h0 h1)
+    (by have := Int.toNat_of_nonneg (le_of_lt h0); push_cast; omega)
+  refine ⟨fromI64 p t', ?_, fromI64_nonneg (by omega) _, fromI64_lt (by omega) _, ?_⟩
+  · simp [inverse, ht']
+  · have : t' * a = 1 + k * p := by linarith
+    rw [fromI64_eq, Int.mul_emod, Int.emod_emod_of_dvd _ (dvd_refl _), ← Int.mul_emod, this,
+      Int.add_mul_emod_self_right]
+    exact Int.emod_eq_of_lt (by norm_num) (by omega)
 
 end DSymVerif.PRC
